@@ -91,8 +91,8 @@ C05_FailedEmpty(c) ==
       \cup {<<"C05.failed_not_empty", c.oclass, n.tbl, ToString(n.lab)>> : n \in {n \in NRows(c.net) : IsNum(n.m)}}
 
 Failures(c) ==
-    (IF "C04" \in Range(c.check) THEN C04(c) ELSE {})
-    \cup (IF "C05" \in Range(c.check) THEN C05_FailedEmpty(c) ELSE {})
+    (IF "C04" \in Rng(c.check) THEN C04(c) ELSE {})
+    \cup (IF "C05" \in Rng(c.check) THEN C05_FailedEmpty(c) ELSE {})
 
 (* ------------------------------ machine ------------------------------ *)
 Init == ci = 0 /\ nfail = 0
